@@ -472,6 +472,73 @@ func checkC22Dispatch(w *World, r *Run, ruleDisp, ruleBackoff string) {
 	})
 	r.Check(upper, ruleBackoff, "nextAttemptAt: delay clamped at MaxBackoff", na.Pos(), "delay = maxBackoff under delay > maxBackoff", "the back-off delay is not bounded by MaxBackoff")
 	r.Check(lower, ruleBackoff, "nextAttemptAt: exponent clamped at 0", na.Pos(), "exponent = 0 under exponent < 0", "a negative exponent is not clamped")
+
+	// the clamp at MaxBackoff only bounds a delay that did not wrap around: integer shifts and
+	// products by a value that grows with the attempt count overflow int64 and come out
+	// negative or zero, below the clamp (floating point saturates at +Inf, which the clamp
+	// handles)
+	var upperBounded func(v ssa.Value, at *ssa.BasicBlock, depth int) bool
+	upperBounded = func(v ssa.Value, at *ssa.BasicBlock, depth int) bool {
+		if _, isc := v.(*ssa.Const); isc {
+			return true
+		}
+		if depth > 4 {
+			return false
+		}
+		for _, f := range factsAt(at) {
+			b, isB := f.Val.(*ssa.BinOp)
+			if !isB {
+				continue
+			}
+			if _, isc := b.Y.(*ssa.Const); !isc || !(sameValue(b.X, v) || sameValue(b.X, stripConv(v))) {
+				continue
+			}
+			if (f.Kind == IsTrue && (b.Op == token.LSS || b.Op == token.LEQ)) || (f.Kind == IsFalse && (b.Op == token.GTR || b.Op == token.GEQ)) {
+				return true
+			}
+		}
+		if c := stripConv(v); c != v {
+			return upperBounded(c, at, depth+1)
+		}
+		if phi, ok := v.(*ssa.Phi); ok {
+			for i, e := range phi.Edges {
+				if !upperBounded(e, phi.Block().Preds[i], depth+1) {
+					return false
+				}
+			}
+			return true
+		}
+		return false
+	}
+	wraps := ""
+	var wrapPos token.Pos = na.Pos()
+	allInstrs(na, false, func(_ *ssa.Function, ins ssa.Instruction) {
+		b, ok := ins.(*ssa.BinOp)
+		if !ok || (b.Op != token.SHL && b.Op != token.MUL) {
+			return
+		}
+		bt, ok := b.Type().Underlying().(*types.Basic)
+		if !ok || bt.Info()&types.IsInteger == 0 {
+			return
+		}
+		operands := []ssa.Value{b.Y}
+		if b.Op == token.MUL {
+			operands = append(operands, b.X)
+		}
+		unbounded := 0
+		for _, o := range operands {
+			if !upperBounded(o, b.Block(), 0) {
+				unbounded++
+			}
+		}
+		// a product needs both factors unbounded-by-constant to be suspicious only if one of
+		// them grows with the attempts; a shift needs a bounded count
+		if (b.Op == token.SHL && unbounded > 0) || (b.Op == token.MUL && unbounded > 1) {
+			wraps = b.Op.String()
+			wrapPos = b.Pos()
+		}
+	})
+	r.Check(wraps == "", ruleBackoff, "nextAttemptAt: delay computed without integer wrap-around", wrapPos, "no integer shift or product by an unbounded value", "the delay is an integer "+wraps+" by a value with no constant upper bound: after enough failed attempts it overflows to a negative or zero duration, which passes the MaxBackoff clamp and makes the entry due immediately")
 }
 
 // unconvert strips numeric conversions and loads to reach the field a value was read from.
